@@ -35,7 +35,7 @@ def argv_cases():
                 cases.append({"cmd": "sync", "truth": truth, "files": list(combo), "names": names})
     # legal files with stand-alone "# type:" comments; existing but empty target files
     for truth in ("class", "function", "argparse_function"):
-        for decor in ("type_comment", "empty_targets"):
+        for decor in ("type_comment", "empty_targets", "decorated"):
             for combo in (("existing", "existing", "existing"), ("existing", "existing", "absent"), ("existing", "absent", "existing"),
                           ("absent", "existing", "existing")):
                 cases.append({"cmd": "sync", "truth": truth, "files": list(combo), "names": True, "decor": decor})
@@ -212,6 +212,9 @@ class C20(core.Check):
                             text = "# type: this line is prose, not a type\n" + text + "\nprint(len('x'))  # type: also prose\n"
                         if case.get("decor") == "empty_targets" and kind != case["truth"]:
                             text = ""
+                        if case.get("decor") == "decorated" and kind != "class":
+                            # the existing definition carries a decorator that is a call, not a bare name
+                            text = "import functools\n\n\n" + text.replace("def ", "@functools.lru_cache(maxsize=None)\ndef ", 1)
                         f.write(text)
                 second = case.get("second") if kind == case["truth"] else None
                 if second:
